@@ -11,7 +11,7 @@ func init() {
 	register(&PropDef{
 		ID:          "C04",
 		Level:       "other",
-		Explanation: "Cancel as decision/effect table plus ordering rules: (1) the internal cancel function is evaluated on all classes of (found, canceled, completed, started, scheduler present): unknown id → not-found error without effect; already canceled → nil without effect; completed → error without effect; unstarted → the job is marked canceled (and, by the canceled-site rule, leaves the wait list) → nil; running → the scheduler's Cancel is delivered on a WaitGroup-paired goroutine → nil; the HTTP handler maps not-found to 404; (2) the start function refuses canceled jobs before creating the scheduler, storing Start or spawning; (3) Scheduler.Cancel stores the flag before delegating; the scheduling loop tests the flag on every iteration before any launch; TaskRunner.Run tests ctx.Err() before compiling or executing anything; TaskRunner.Cancel cancels and then waits for all runs, and every Lock in package taskctl is released on every path to a return of its function (a second Cancel must not block forever); (4) on no path of the scheduler that took the `cancelled == 1` edge is a possibly-nil result returned while stages may be unfinished (dischargers: a non-nil error stored to the result, the result != nil edge, the isDone == true edge; the flag is only ever set to 1), and the completion handler sets Canceled iff the result is context.Canceled.",
+		Explanation: "Cancel as decision/effect table plus ordering rules: (1) the internal cancel function is evaluated on all classes of (found, canceled, completed, started, scheduler present): unknown id → not-found error without effect; already canceled → nil without effect; completed → error without effect; unstarted → the job is marked canceled (and, by the canceled-site rule, leaves the wait list) → nil; running → the scheduler's Cancel is delivered on a WaitGroup-paired goroutine → nil; the HTTP handler maps not-found to 404; (2) the start function refuses canceled jobs before creating the scheduler, storing Start or spawning; (3) Scheduler.Cancel stores the flag before delegating; the scheduling loop tests the flag on every iteration before any launch; TaskRunner.Run tests ctx.Err() before compiling or executing anything; TaskRunner.Cancel cancels and then waits for all runs, and every Lock in package taskctl is released on every path to a return of its function (a second Cancel must not block forever); (4) on no path of the scheduler that took the `cancelled == 1` edge is a possibly-nil result returned while stages may be unfinished (dischargers: a non-nil error stored to the result, the result != nil edge, the isDone == true edge; the flag is only ever set to 1), and the completion handler sets Canceled iff the result is context.Canceled. SURVIVES A RESTART — the load normalisation table: every job found in the store ends terminal and is neither queued nor started again (an acknowledged cancel that had not been saved yet cannot be undone by a crash).",
 		Trusted:     []string{"C13", "context cancellation reaches running commands (C20)", "upstream runner returns context.Canceled for canceled runs"},
 		NotDecided:  []string{"timing of delivery", "that the runner's Cancel actually stops processes (C20)"},
 		Check:       checkC04,
